@@ -774,9 +774,102 @@ def p_C16(ctx):
     return ctx.finish("model-driven fault enumeration: TLC enumerates all single faults (quick) / all fault pairs (thorough) of 5 components files and 2 factor files over 21 atoms, plus token soups; every text goes through every public library entry point under catch_unwind and through the real program (half of them in the quick tier), together with valid texts of every kind and numeric option atoms; oracle = terminal states of the specification (Ok / typed error; deliberate exit code with stderr); distinct_nontrivial = distinct corrupted files that reached another parser branch than their base file + distinct token soups")
 
 
+TEXT_ATOMS = {"<NT>": "ñ", "<EU>": "€"}
+
+
+def p_C17(ctx):
+    import cli
+    st = ctx.mc("MC_C17", "MC_C17_quick.cfg" if ctx.quick else "MC_C17_thorough.cfg")
+    lat = lattice(ctx)
+    runs = [{"tag": "r1"}, {"tag": "r2"}]
+    latc = list(stride(vlib.mc_cases(lat), 150 if ctx.quick else 15, ctx.seed % 150 if ctx.quick else 0))
+    # --- free text: every string TLC enumerates, in a component comment, a metadata value and the factor comments
+    def strings():
+        k = 0
+        for c in vlib.mc_cases(st):
+            txt = "".join(TEXT_ATOMS.get(a, a) for a in c["atoms"])
+            b = json.loads(json.dumps(latc[k % len(latc)]))
+            k += 1
+            b["src"]["comps"][0]["cm"] = txt
+            b["meta"] = [["CTE_NOTA", txt]]
+            if b["fac"]["mode"] == "str":
+                b["fac"]["comment"] = txt
+            b["render"] = True
+            b["runs"] = [{"tag": "r1"}]
+            b["atoms"] = c["atoms"]
+            yield b
+    ctx.replay(strings(), "strings", "Trace_C17", keep=lambda c: {"atoms": c["atoms"], "src": c["src"], "fac": c["fac"]})
+    ctx.extra["strings"] = ctx.ncases
+    def rend(cs):
+        for c in cs:
+            c = dict(c)
+            c["render"] = True
+            c["runs"] = runs
+            yield c
+    ctx.replay(rend(latc), "lattice", "Trace_C17")
+    ctx.replay(rend(rnd(ctx, 40, 2000, None, aux=True)), "random", "Trace_C17")
+    # --- shipped files: library renderings (r1, r2) followed by the documents the real program writes for the same input
+    d = os.path.join(WORK, "run", ctx.pid)
+    files = shipped_files()
+    cpath, tpath = os.path.join(d, "files.cases"), os.path.join(d, "files-lib.ndjson")
+    tmp = os.path.join(d, "cli")
+    import shutil
+    shutil.rmtree(tmp, ignore_errors=True)
+    os.makedirs(tmp, exist_ok=True)
+    lexin = []
+    with open(cpath, "w") as f:
+        for pth in files:
+            ctx.ncases += 1
+            n = ctx.ncases
+            c = {"case": n, "name": os.path.relpath(pth, REPO), "src": {"file": pth}, "fac": {"mode": "loc", "loc": "PENINSULA"},
+                 "kexp": [0, 1], "area": [200, 1], "lm": False, "render": True, "runs": runs}
+            ctx.cases[n] = c
+            f.write(json.dumps(c) + "\n")
+            out = {k: os.path.join(tmp, "%d.%s" % (n, k)) for k in ("xml", "txt", "json")}
+            res = cli.run_proc(["-c", pth, "-l", "PENINSULA", "-F", "--arearef=200", "--kexp=0", "--xml", out["xml"], "--txt", out["txt"], "--json", out["json"]], tmp)
+            lexin.append(dict(out, case=n, tag="cli", exit=res["exit"] if isinstance(res["exit"], int) else -1))
+    vlib.run_harness("cases", cpath, tpath)
+    lpath, t2 = os.path.join(d, "files-cli.in"), os.path.join(d, "files-cli.ndjson")
+    with open(lpath, "w") as f:
+        for x in lexin:
+            f.write(json.dumps(x) + "\n")
+    vlib.run_harness("lexfiles", lpath, t2)
+    # interleave: library events of a case, then its CliDocs event
+    merged = os.path.join(d, "files.ndjson")
+    bycase = {}
+    for line in open(t2):
+        bycase[json.loads(line)["case"]] = line
+    with open(merged, "w") as f:
+        last = None
+        for line in open(tpath):
+            c = json.loads(line)["case"]
+            if last is not None and c != last and last in bycase:
+                f.write(bycase.pop(last))
+            f.write(line)
+            last = c
+        if last in bycase:
+            f.write(bycase.pop(last))
+    res = vlib.validate("Trace_C17", merged)
+    ctx.events += res["events"]
+    ctx.verdicts += res["verdicts"]
+    ctx.unjudged += res["unjudged"]
+    if not res["accepted"]:
+        ctx.rejected = True
+    shutil.rmtree(tmp, ignore_errors=True)
+    ctx.nontrivial = set(range(ctx.ncases))
+    e0 = json.loads(open(merged).readline())
+    ctx.samples = [{"case": e0["case"], "xml_tokens_head": e0["doc"]["xml"][:8], "plain_entries_head": e0["doc"]["plain"][:8], "json": {k: e0["doc"]["json"][k] for k in ("valid", "reread", "ncomps", "nfac")}}]
+    ctx.assumptions = ["the lexers of the harness (harness/src/lex.rs: XML subset, positional plain-report lexer) are trusted; they only tokenise",
+                       "a printed number is compared with the logged f32 value at its printed precision (half a unit of the last digit + one logging unit)",
+                       "between two runs a printed digit may differ by one unit (f32 sums in hash order); order and keys of every table must be identical",
+                       "comment text is not compared with its input (only well-formedness is claimed for free text)"]
+    return ctx.finish("every string of at most 2 (3) atoms from Output!TextAtoms (TLC-enumerated) is placed in a component comment, a metadata value and the factor comments of a lattice building that is then rendered; lattice buildings, random buildings and all shipped files are rendered twice; for the shipped files the documents written by the real program (--xml --txt --json) are lexed and compared too; TLC judges XML by a pushdown acceptor + element counts + numeric leaves, every number of the plain report against the value of its path, the JSON re-read and run-to-run stability")
+
+
 PROPS = {
     "C01": p_C01,
     "C16": p_C16,
+    "C17": p_C17,
     "C19": p_C19,
     "C02": p_C02,
     "C03": p_C03,
